@@ -243,3 +243,6 @@ def tie(ctx):
         "divergences": divergences[:20],
         "violations": vout[:8],
     }
+
+
+tie = _implgen.wrap_tie(tie)   # + regenerated model vs real library (translator validation)
